@@ -154,14 +154,125 @@ theorem Probe.trace_skip (p : Probe) (pre rest : List Nat) (h : ∀ t ∈ pre, t
     simp only [List.cons_append, Probe.trace, Probe.action, ht, ↓reduceIte]
     exact ih (fun x hx => h x (List.mem_cons_of_mem _ hx))
 
-theorem Probe.trace_send (p : Probe) (t : Nat) (rest : List Nat) (h1 : t ≥ p.next) (h2 : t < p.start + 750) :
-    p.trace (t :: rest) = (t, .send) :: ({ p with next := t + 250 } : Probe).trace rest := by
-  have h3 : ¬ t ≥ p.start + 750 := by omega
-  simp [Probe.trace, Probe.action, Probe.step, h1, h3]
+theorem Probe.expired_iff (p : Probe) (t : Nat) : p.expired t = true ↔ t ≥ p.start + 750 ∧ p.next ≥ p.start + 750 := by
+  simp [Probe.expired]
 
-theorem Probe.trace_expire (p : Probe) (t : Nat) (rest : List Nat) (h1 : t ≥ p.next) (h2 : t ≥ p.start + 750) :
-    p.trace (t :: rest) = [(t, .expire)] := by
-  simp [Probe.trace, Probe.action, h1, h2]
+/-- a due probe that is not finished sends; a late query moves the start by the lateness -/
+theorem Probe.trace_send' (p : Probe) (t : Nat) (rest : List Nat) (h1 : t ≥ p.next) (h2 : p.expired t = false) :
+    p.trace (t :: rest) = (t, .send) :: ({ p with start := p.start + (t - p.next), next := t + 250 } : Probe).trace rest := by
+  simp [Probe.trace, Probe.action, Probe.step, h1, h2]
+
+/-- the query that goes out exactly when it is due leaves the start as it is -/
+theorem Probe.trace_send (p : Probe) (rest : List Nat) (h2 : p.next < p.start + 750) :
+    p.trace (p.next :: rest) = (p.next, .send) :: ({ p with next := p.next + 250 } : Probe).trace rest := by
+  have h3 : p.expired p.next = false := by
+    simp only [Probe.expired, Bool.and_eq_false_iff, decide_eq_false_iff_not]
+    exact Or.inl (by omega)
+  rw [Probe.trace_send' p p.next rest (Nat.le_refl _) h3]
+  simp
+
+theorem Probe.trace_expire (p : Probe) (t : Nat) (rest : List Nat) (h1 : t ≥ p.next) (h2 : t ≥ p.start + 750)
+    (h3 : p.next ≥ p.start + 750) : p.trace (t :: rest) = [(t, .expire)] := by
+  have : p.expired t = true := (Probe.expired_iff p t).mpr ⟨h2, h3⟩
+  simp [Probe.trace, Probe.action, h1, this]
+
+/-! ### three queries whatever the scheduler (repair of D31) -/
+
+/-- the probe has sent `k` of its three queries: `next_send` is `k` steps of 250 ms after the
+    start (the start moves with every late query, so this holds whenever the queries went out) -/
+def Probe.Sent (p : Probe) (k : Nat) : Prop := p.next = p.start + 250 * k ∧ k ≤ 3
+
+theorem Probe.Sent.new (T : Nat) : (Probe.new T).Sent 0 := ⟨rfl, by omega⟩
+
+theorem Probe.Sent.action {p : Probe} {k : Nat} (h : p.Sent k) (t : Nat) :
+    p.action t = if t ≥ p.next then (if k = 3 then .expire else .send) else .idle := by
+  unfold Probe.action
+  by_cases ht : t ≥ p.next
+  · simp only [ht, ↓reduceIte]
+    by_cases hk : k = 3
+    · have : p.expired t = true := (Probe.expired_iff p t).mpr ⟨by have := h.1; omega, by have := h.1; omega⟩
+      simp [hk, this]
+    · have : ¬ p.expired t = true := by
+        intro e
+        have := (Probe.expired_iff p t).mp e
+        have := h.1; have := h.2
+        omega
+      simp [hk, this]
+  · simp [ht]
+
+theorem Probe.Sent.step {p : Probe} {k : Nat} (h : p.Sent k) (hk : k ≠ 3) {t : Nat} (ht : t ≥ p.next) :
+    (p.step t).Sent (k + 1) ∧ (p.step t).next = t + 250 := by
+  have ha : p.action t = .send := by rw [h.action t]; simp [ht, hk]
+  unfold Probe.step
+  rw [ha]
+  refine ⟨⟨?_, by have := h.2; omega⟩, rfl⟩
+  show t + 250 = p.start + (t - p.next) + 250 * (k + 1)
+  have := h.1
+  omega
+
+/-- the times of the queries in a trace -/
+def sendTimes (tr : List (Nat × ProbeAction)) : List Nat :=
+  tr.filterMap fun e => if e.2 == .send then some e.1 else none
+
+/-- the time the probe ended, if it did -/
+def endTime (tr : List (Nat × ProbeAction)) : Option Nat :=
+  tr.findSome? fun e => if e.2 == .expire then some e.1 else none
+
+/-- THREE QUERIES, WHATEVER THE SCHEDULER: a probe that has sent `k` queries, looked at at ANY
+    instants `ts` (any order, any gaps), sends at most `3 - k` more, none before it is due, each at
+    least 250 ms after the one before; and if it ends, it has sent all three and ends at least
+    250 ms after the last. -/
+theorem Probe.trace_three : ∀ (ts : List Nat) (p : Probe) (k : Nat), p.Sent k →
+    (sendTimes (p.trace ts)).length + k ≤ 3 ∧ (∀ x ∈ sendTimes (p.trace ts), p.next ≤ x) ∧
+    (sendTimes (p.trace ts)).Pairwise (fun a b => a + 250 ≤ b) ∧
+    (∀ te, endTime (p.trace ts) = some te →
+      (sendTimes (p.trace ts)).length + k = 3 ∧ p.next ≤ te ∧ ∀ x ∈ sendTimes (p.trace ts), x + 250 ≤ te) := by
+  intro ts
+  induction ts with
+  | nil =>
+    intro p k h
+    exact ⟨by simpa [Probe.trace, sendTimes] using h.2, by simp [Probe.trace, sendTimes], by simp [Probe.trace, sendTimes],
+      by simp [Probe.trace, endTime]⟩
+  | cons t ts ih =>
+    intro p k h
+    by_cases ht : t ≥ p.next
+    · by_cases hk : k = 3
+      · have ha : p.action t = .expire := by rw [h.action t]; simp [ht, hk]
+        have htr : p.trace (t :: ts) = [(t, .expire)] := by simp [Probe.trace, ha]
+        rw [htr]
+        refine ⟨by simp [sendTimes, hk], by simp [sendTimes], by simp [sendTimes], ?_⟩
+        intro te hte
+        simp only [endTime, List.findSome?_cons, beq_self_eq_true, ↓reduceIte, Option.some.injEq] at hte
+        subst hte
+        exact ⟨by simp [sendTimes, hk], ht, by simp [sendTimes]⟩
+      · have ha : p.action t = .send := by rw [h.action t]; simp [ht, hk]
+        obtain ⟨hs, hn⟩ := h.step hk ht
+        have htr : p.trace (t :: ts) = (t, .send) :: (p.step t).trace ts := by simp [Probe.trace, ha]
+        obtain ⟨i1, i2, i3, i4⟩ := ih (p.step t) (k + 1) hs
+        rw [htr]
+        have hst : sendTimes ((t, ProbeAction.send) :: (p.step t).trace ts) = t :: sendTimes ((p.step t).trace ts) := by
+          simp [sendTimes]
+        have het : endTime ((t, ProbeAction.send) :: (p.step t).trace ts) = endTime ((p.step t).trace ts) := by
+          simp [endTime, List.findSome?_cons]
+        rw [hst, het]
+        rw [hn] at i2 i4
+        refine ⟨by simp only [List.length_cons]; omega, ?_, ?_, ?_⟩
+        · intro x hx
+          rcases List.mem_cons.mp hx with rfl | hx
+          · exact ht
+          · have := i2 x hx; omega
+        · exact List.pairwise_cons.mpr ⟨fun b hb => i2 b hb, i3⟩
+        · intro te hte
+          obtain ⟨j1, j2, j3⟩ := i4 te hte
+          refine ⟨by simp only [List.length_cons]; omega, by omega, ?_⟩
+          intro x hx
+          rcases List.mem_cons.mp hx with rfl | hx
+          · exact j2
+          · exact j3 x hx
+    · have ha : p.action t = .idle := by rw [h.action t]; simp [ht]
+      have htr : p.trace (t :: ts) = p.trace ts := by simp [Probe.trace, ha]
+      rw [htr]
+      exact ih p k h
 
 /-! ### a record comes to a probe -/
 
@@ -1041,7 +1152,8 @@ theorem run_inv (inputs : List Input) (s : State) (h : Inv s) (hp : ∀ inp ∈ 
 theorem checkProbing_sends {r : Registry} {now : Nat} {n : BList} {p : Probe} (hm : (n, p) ∈ r.probing)
     (ha : p.action now = .send) :
     (n, TYPE_ANY) ∈ (checkProbing r now).questions ∧ (∀ a ∈ p.records, a ∈ (checkProbing r now).authorities) ∧
-    (now + 250) ∈ (checkProbing r now).timers ∧ (n, { p with next := now + 250 }) ∈ (checkProbing r now).reg.probing := by
+    (now + 250) ∈ (checkProbing r now).timers ∧
+    (n, { p with start := p.start + (now - p.next), next := now + 250 }) ∈ (checkProbing r now).reg.probing := by
   have hf : (n, p) ∈ r.probing.filter (fun e => e.2.action now == .send) := by
     simp [List.mem_filter, hm, ha]
   refine ⟨?_, ?_, ?_, ?_⟩
@@ -1064,7 +1176,7 @@ theorem checkProbing_question {r : Registry} {now : Nat} {n : BList} {t : Nat}
   exact ⟨h2.symm, p, hm, by simpa using ha⟩
 
 theorem checkProbing_expired {r : Registry} {now : Nat} {n : BList} (h : n ∈ (checkProbing r now).expired) :
-    ∃ p, (n, p) ∈ r.probing ∧ now ≥ p.next ∧ now ≥ p.start + 750 := by
+    ∃ p, (n, p) ∈ r.probing ∧ now ≥ p.next ∧ now ≥ p.start + 750 ∧ p.next ≥ p.start + 750 := by
   simp only [checkProbing, List.mem_map, List.mem_filter] at h
   obtain ⟨⟨n', p⟩, ⟨hm, ha⟩, heq⟩ := h
   subst heq
@@ -1072,7 +1184,8 @@ theorem checkProbing_expired {r : Registry} {now : Nat} {n : BList} (h : n ∈ (
   simp only [Probe.action, beq_iff_eq] at ha
   split at ha
   · split at ha
-    · constructor <;> assumption
+    · rename_i h1 h2
+      exact ⟨h1, ((Probe.expired_iff p now).mp h2).1, ((Probe.expired_iff p now).mp h2).2⟩
     · cases ha
   · cases ha
 
